@@ -874,6 +874,13 @@ def stream_cli_simple(seed, tier, workdir, stream):
         # the default worker count on a machine where the process sees a single CPU
         cases[-1]["pin"] = cases[-1]["threads"] is None and r.random() < 0.6
         cases[-1]["rooms_file"] = rooms is not None and r.random() < 0.35
+        if i % 12 == 5 and len(doc["courses"]) >= 2 and doc["participants"]:
+            # (see lines_cli_simple) somebody instructs two or three courses
+            p_ = r.randrange(len(doc["participants"]))
+            for c_ in r.sample(doc["courses"], min(len(doc["courses"]), r.choice([2, 2, 3]))):
+                if p_ not in c_["instructors"]:
+                    c_["instructors"].append(p_)
+            cases[-1].update({"dual": True, "print": True, "output": True, "stale": False, "pin": False, "rooms_file": False})
     # a rooms file in which two kinds of different capacity share a name, the larger one first, and
     # rooms that are just sufficient: reading the file must not merge the two
     for _ in range(scale(tier, 6, 60)):
@@ -972,6 +979,23 @@ def lines_cli_simple(cases, workdir, stream, binary):
             if c["output"]:
                 args.append(outp)
             rc, so, se, to = run_bin(binary, args, pin=bool(c.get("pin")))
+            if c.get("dual"):
+                # a participant listed as instructor of two courses: outside the validity the properties
+                # quantify over (no oracle applies), but the binary accepts it — only the tie of the listing
+                # model to the code is checked (the flag is printed iff the course lists the person)
+                if rc == 0 and c["print"] and c["output"] and os.path.exists(outp):
+                    try:
+                        a = json.load(open(outp, encoding="utf-8"))["assignment"]
+                        lst = parse_listing(so)
+                        names = {"c": [x["name"] for x in c["doc"]["courses"]], "p": [x["name"] for x in c["doc"]["participants"]],
+                                 "h": [x.get("hidden_participant_names", []) for x in c["doc"]["courses"]]}
+                        payload = json.dumps({"inst": inst_text(c["doc"], c["rooms"]), "a": fmt_assign(a), "names": names,
+                                              "rooms": [x[2] for x in lst] if (c["rooms"] is not None and lst) else None}, ensure_ascii=False)
+                        out.append(line("corr", ["C14"], "L", payload, json.dumps(so[len("The assignment is:\n"):], ensure_ascii=False), case=i, stream=stream,
+                                        feat=["dual-instructor"]))
+                    except Exception:
+                        pass
+                continue
             nofile = not os.path.exists(outp) or (c["stale"] and c["output"] and rc != 0)
             good = (not to) and rc in (0, 1) and "panicked" not in se and (rc == 0 or ("No feasible solution found" in se))
             out.append(line("direct", ["C10"], ok=good, what=f"exit {rc} timeout {to}; stderr tail: {se[-200:]}", case=i, stream=stream,
